@@ -1,5 +1,6 @@
 import PqlModel.Props.C16a
 import PqlModel.Props.C16
+import PqlModel.Props.C16IO
 #print axioms Pql.C16.C16_statement_sim
 #print axioms Pql.C16.C16_statements_sim
 #print axioms Pql.C16.C16_output_monotone
@@ -7,3 +8,29 @@ import PqlModel.Props.C16
 #print axioms Pql.C16.C16_refines_all
 #print axioms Pql.C16.C16_last_terminated_or_not
 #print axioms Pql.C16.C16_last_terminated_or_not_cli
+#print axioms Pql.CliIO.C16_multi_concat
+#print axioms Pql.CliIO.C16_multi_concat_fuel
+#print axioms Pql.CliIO.C16_multi_terminates
+#print axioms Pql.CliIO.C16_multi_concat_noErr
+#print axioms Pql.CliIO.C16_reader_alone
+#print axioms Pql.CliIO.C16_multi_single
+#print axioms Pql.CliIO.C16_multi_chunking
+#print axioms Pql.CliIO.C16_multi_zero_nil
+#print axioms Pql.CliIO.C16_multi_progress
+#print axioms Pql.CliIO.C16_files
+#print axioms Pql.CliIO.C16_files_general
+#print axioms Pql.CliIO.C16_lines_lossless
+#print axioms Pql.CliIO.C16_lines_only_cr_dropped
+#print axioms Pql.CliIO.C16_lines_identity
+#print axioms Pql.CliIO.C16_lines_prefix
+#print axioms Pql.CliIO.C16_main_spec
+#print axioms Pql.CliIO.C16_main_spec_bytes
+#print axioms Pql.CliIO.C16_spec_closed
+#print axioms Pql.CliIO.C16_output_order
+#print axioms Pql.CliIO.C16_steps_prelude
+#print axioms Pql.CliIO.C16_failed_let_not_in_prelude
+#print axioms Pql.CliIO.C16_failure_isolated
+#print axioms Pql.CliIO.C16_failure_replace
+#print axioms Pql.CliIO.C16_exit_iff
+#print axioms Pql.CliIO.C16_nothing_dropped
+#print axioms Pql.CliIO.C16_nothing_dropped_main
